@@ -104,6 +104,17 @@ def run(a, res):
             return Resp(404, length=3)
         with lock:
             idx = len(issued.setdefault(p, {}))
+            cur = list(issued[p].values())[-1] if issued[p] else None
+        inm = httpref.get(req.headers, "If-None-Match")
+        if inm is not None and cur is not None and inm.strip() == getattr(cur, "etag", None) and random.Random(f"{c['vseed']}:304:{req.req_id}").random() < 0.6:
+            # the current version is confirmed: same rid, same validators, but an unrelated header whose size changes with every
+            # revalidation, so squid rewrites the stored header block (and whatever shares a shared-memory page / slot with it)
+            with lock:
+                reval_n[0] += 1
+                k = reval_n[0]
+            res.count("origin_answered_304")
+            return Resp(304, [("Cache-Control", "max-age=3600"), ("ETag", cur.etag), ("X-Verif-Hdr", "h-" + cur.rid), ("X-Reval", "g%d-" % k + "x" * ((k % 9) * 37))],
+                        body=b"", framing="none", rid=cur.rid)
         r = random.Random(f"{c['vseed']}:{idx}")
         n = pick_len(r)
         slow = r.random() < 0.45
@@ -111,6 +122,8 @@ def run(a, res):
                     framing=r.choice(["cl", "cl", "chunked"]), chunks=[4096, 30000, 70000],
                     delay_before=r.choice([0, 0.02, 0.08]) if slow else 0, delay=r.choice([0.02, 0.05]) if slow else 0)
         resp.headers.append(("X-Verif-Hdr", "h-" + resp.rid))
+        resp.etag = '"%s-%d"' % (resp.rid, n)
+        resp.headers.append(("ETag", resp.etag))
         if slow:
             wire = resp.serialize()
             hl = wire.find(b"\r\n\r\n") + 4
@@ -121,6 +134,7 @@ def run(a, res):
             all_rids[resp.rid] = p
         return resp
 
+    reval_n = [0]
     org = Origin(handler, backlog=512)
     wit = lambda c: {"seed": c["seed"], "case": c["n"], "tier": a.tier}
     totals = {"hits": 0, "xhits": 0, "inval": 0, "after_inval": 0}
